@@ -128,6 +128,14 @@ impl Db {
         }
     }
 
+    pub fn raw(&self) -> Option<&Database> {
+        self.db.as_ref()
+    }
+
+    pub fn file_len(&self) -> u64 {
+        std::fs::metadata(&self.path).map(|m| m.len()).unwrap_or(0)
+    }
+
     pub fn usable(&self) -> bool {
         self.db.is_some() && self.lost_workers + 1 < self.cfg.pool as usize + 1 && self.lost_workers < self.cfg.pool as usize
     }
